@@ -3072,6 +3072,7 @@ EbErrorType svt_svt_enc_init_parameter(
     config_ptr->frame_rate_numerator = 0;
     config_ptr->frame_rate_denominator = 0;
     config_ptr->encoder_bit_depth = 8;
+    config_ptr->is_16bit_pipeline = EB_FALSE;
     config_ptr->ten_bit_format = 0;
     config_ptr->compressed_ten_bit_format = 0;
     config_ptr->source_width = 0;
@@ -3094,6 +3095,10 @@ EbErrorType svt_svt_enc_init_parameter(
     config_ptr->look_ahead_distance = (uint32_t)~0;
     config_ptr->enable_tpl_la = 1;
     config_ptr->target_bit_rate = 7000000;
+    config_ptr->vbv_bufsize = 0; // 0: one second of target_bit_rate
+    config_ptr->rc_twopass_stats_in.buf = NULL;
+    config_ptr->rc_twopass_stats_in.sz = 0;
+    config_ptr->rc_firstpass_stats_out = EB_FALSE;
     config_ptr->max_qp_allowed = 63;
     config_ptr->min_qp_allowed = 1;
 
